@@ -1,6 +1,6 @@
 (* Proofs about Model/KeyStore.v (bumble/keys.py JsonKeyStore, PairingKeys). *)
 From Coq Require Import String Ascii.
-From Coq Require Import ZArith List Bool Lia Decimal DecimalZ ZifyBool.
+From Coq Require Import ZArith List Bool Lia Decimal DecimalZ DecimalPos ZifyBool.
 From BV Require Import Model.KeyStore.
 Import ListNotations.
 Open Scope Z_scope.
@@ -209,6 +209,14 @@ Proof.
   - destruct (str_eqb k' k); auto.
 Qed.
 
+Lemma lookup_optm : forall (A B : Type) k k' (f : A -> B) o,
+  lookup k' (optm k f o) = if str_eqb k' k then option_map f o else None.
+Proof.
+  intros. destruct o; simpl.
+  - rewrite (str_eqb_sym k' k). destruct (str_eqb k k'); auto.
+  - destruct (str_eqb k' k); auto.
+Qed.
+
 (* ================================================================== hex *)
 Lemma hex_digit_val : forall n, 0 <= n < 16 -> hex_val (hex_digit n) = Some n.
 Proof.
@@ -220,12 +228,14 @@ Qed.
 
 Lemma hex_rt : forall bs, bytes_ok bs = true -> hex_dec (hex_enc bs) = Some bs.
 Proof.
-  induction bs as [|b r IH]; simpl; intro H; auto.
-  apply andb_true_iff in H. destruct H as [Hb Hr].
+  induction bs as [|b r IH]; intro H; [reflexivity|].
+  cbn [bytes_ok forallb] in H. apply andb_true_iff in H. destruct H as [Hb Hr].
   unfold byte_ok in Hb.
   assert (0 <= b < 256) by lia.
+  cbn [hex_enc hex_dec].
   rewrite !hex_digit_val.
-  - rewrite IH; auto. f_equal. f_equal. pose proof (Z.div_mod b 16 ltac:(lia)) as E. rewrite <- E. reflexivity.
+  - fold (bytes_ok r) in Hr. rewrite IH; auto.
+    pose proof (Z.div_mod b 16 ltac:(lia)) as E. rewrite <- E. reflexivity.
   - apply Z.mod_pos_bound. lia.
   - split. apply Z.div_pos; lia. apply Z.div_lt_upper_bound; lia.
 Qed.
@@ -279,7 +289,7 @@ Lemma to_dict_lookup : forall k,
   lookup F_ltk_peripheral (to_dict k) = option_map fkey (ltk_peripheral k).
 Proof.
   intros [a k1 k2 k3 k4 k5 k6 t]. unfold to_dict. cbn [address_type ltk ltk_central ltk_peripheral irk csrk link_key link_key_type].
-  repeat split; rewrite !lookup_optm_app;
+  repeat split; rewrite !lookup_optm_app, ?lookup_optm;
     repeat match goal with |- context [str_eqb ?x ?y] =>
       let b := eval vm_compute in (str_eqb x y) in
       change (str_eqb x y) with b; cbv iota end;
@@ -307,4 +317,1021 @@ Proof.
   rewrite (get_fkey_rt _ _ (ltk k)), (get_fkey_rt _ _ (ltk_central k)), (get_fkey_rt _ _ (ltk_peripheral k)),
           (get_fkey_rt _ _ (irk k)), (get_fkey_rt _ _ (csrk k)), (get_fkey_rt _ _ (link_key k)); auto.
   destruct k; reflexivity.
+Qed.
+
+(* ================================================================== well-formed databases *)
+Definition obj_ok {A : Type} (f : A -> bool) (ms : list (str * A)) : bool :=
+  forallb (fun m => str_ok (fst m) && f (snd m)) ms.
+Definition kval_ok (v : kval) : bool := match v with KStr s => str_ok s | _ => true end.
+Definition fval_ok (v : fval) : bool := match v with FvInt _ => true | FvKey d => obj_ok kval_ok d end.
+Definition pdict_ok (d : pdict) : bool := obj_ok fval_ok d.
+Definition kmap_ok (m : kmap) : bool := obj_ok pdict_ok m.
+Definition db_ok (d : db) : bool := obj_ok kmap_ok d.
+
+(* ================================================================== tokens of a database *)
+Definition tok_member {A : Type} (tv : A -> list token) (m : str * A) : list token :=
+  TStr (fst m) :: TColon :: tv (snd m).
+Definition tok_obj {A : Type} (tv : A -> list token) (ms : list (str * A)) : list token :=
+  match ms with
+  | [] => [TLB; TRB]
+  | m :: r => TLB :: tok_member tv m ++ flat_map (fun m' => TComma :: tok_member tv m') r ++ [TRB]
+  end.
+Definition tok_kval (v : kval) : list token :=
+  match v with KStr s => [TStr s] | KBool true => [TTrue] | KBool false => [TFalse] | KInt z => [TInt z] end.
+Definition tok_fval (v : fval) : list token :=
+  match v with FvInt z => [TInt z] | FvKey d => tok_obj tok_kval d end.
+Definition tok_db (d : db) : list token := tok_obj (tok_obj (tok_obj tok_fval)) d.
+
+(* ================================================================== the lexer on serialised text *)
+Lemma pre_pre : forall a b x, pre a (pre b x) = pre (a ++ b) x.
+Proof. intros. destruct x; simpl; auto. rewrite app_assoc. auto. Qed.
+
+Lemma pre_nil : forall x, pre [] x = x.
+Proof. destruct x; auto. Qed.
+
+Lemma lex_ws : forall c r, is_ws c = true -> lex LIdle (c :: r) = lex LIdle r.
+Proof. intros c r H. cbn [lex]. rewrite H. reflexivity. Qed.
+
+Lemma lex_spaces : forall n r, lex LIdle (repeat 32 n ++ r) = lex LIdle r.
+Proof. induction n; intros; cbn [repeat List.app]; auto. rewrite lex_ws; auto. Qed.
+
+Lemma lex_nl : forall i r, lex LIdle (nl i ++ r) = lex LIdle r.
+Proof. intros. unfold nl. cbn [List.app]. rewrite lex_ws by reflexivity. apply lex_spaces. Qed.
+
+Lemma safe_not_quote : forall c, safe c = true -> (c =? 34) = false.
+Proof. intros c H. unfold safe in H. lia. Qed.
+
+Lemma lex_str_body : forall s acc r, str_ok s = true ->
+  lex (LStr acc) (s ++ 34 :: r) = pre [TStr (List.rev acc ++ s)] (lex LIdle r).
+Proof.
+  induction s as [|c s IH]; intros acc r H.
+  - cbn [List.app]. cbn [lex]. rewrite Z.eqb_refl. rewrite app_nil_r. reflexivity.
+  - simpl in H. apply andb_true_iff in H. destruct H as [Hc Hs].
+    cbn [List.app]. cbn [lex]. rewrite (safe_not_quote c Hc), Hc. rewrite IH; auto.
+    simpl List.rev. rewrite <- app_assoc. reflexivity.
+Qed.
+
+Lemma lex_quote : forall s r, str_ok s = true -> lex LIdle (quote s ++ r) = pre [TStr s] (lex LIdle r).
+Proof.
+  intros s r H. unfold quote. cbn [List.app]. rewrite <- app_assoc. cbn [List.app].
+  change (lex LIdle (34 :: s ++ 34 :: r)) with (lex (LStr []) (s ++ 34 :: r)).
+  rewrite lex_str_body; auto.
+Qed.
+
+(* numbers *)
+Lemma uint_chars_digits : forall u, forallb is_digit (uint_chars u) = true.
+Proof. induction u; simpl; auto. Qed.
+
+Lemma chars_uint_rt : forall u, chars_uint (uint_chars u) = Some u.
+Proof. induction u; simpl; auto; rewrite IHu; reflexivity. Qed.
+
+Lemma uint_chars_nonnil : forall u, u <> Nil -> uint_chars u <> [].
+Proof. destruct u; simpl; intros; congruence. Qed.
+
+Lemma lex_digits : forall ds neg acc c r, forallb is_digit ds = true -> is_digit c = false ->
+  lex (LNum neg acc) (ds ++ c :: r) =
+  match num_tok neg (List.rev ds ++ acc) with Some t => pre [t] (lex LIdle (c :: r)) | None => None end.
+Proof.
+  induction ds as [|d ds IH]; intros neg acc c r H Hc.
+  - cbn [List.app]. cbn [lex]. rewrite Hc. reflexivity.
+  - simpl in H. apply andb_true_iff in H. destruct H as [Hd Hs].
+    cbn [List.app]. cbn [lex]. rewrite Hd. rewrite IH; auto.
+    simpl List.rev. rewrite <- app_assoc. reflexivity.
+Qed.
+
+Lemma lex_idle_digit : forall d r, is_digit d = true -> lex LIdle (d :: r) = lex (LNum false [d]) r.
+Proof.
+  intros d r H. unfold is_digit in H. cbn [lex].
+  replace (is_ws d) with false by (unfold is_ws; lia).
+  replace (d =? 123) with false by lia. replace (d =? 125) with false by lia.
+  replace (d =? 58) with false by lia. replace (d =? 44) with false by lia.
+  replace (d =? 34) with false by lia. replace (d =? 45) with false by lia.
+  unfold is_digit. replace ((48 <=? d) && (d <=? 57)) with true by lia. reflexivity.
+Qed.
+
+Definition delim (c : Z) : bool := (c =? 44) || (c =? 10).
+
+Lemma delim_not_digit : forall c, delim c = true -> is_digit c = false.
+Proof. intros c H. unfold delim in H. unfold is_digit. lia. Qed.
+
+Lemma num_tok_uint : forall neg u, u <> Nil ->
+  num_tok neg (List.rev (uint_chars u)) = Some (TInt (Z.of_int (if neg then Neg u else Pos u))).
+Proof.
+  intros neg u H. unfold num_tok. rewrite rev_involutive.
+  destruct (uint_chars u) eqn:E.
+  - exfalso. eapply uint_chars_nonnil; eauto.
+  - rewrite <- E. rewrite chars_uint_rt. reflexivity.
+Qed.
+
+Lemma lex_uint : forall u neg c r, u <> Nil -> delim c = true ->
+  lex (LNum neg []) (uint_chars u ++ c :: r) =
+  pre [TInt (Z.of_int (if neg then Neg u else Pos u))] (lex LIdle (c :: r)).
+Proof.
+  intros u neg c r Hu Hc. rewrite lex_digits.
+  - rewrite app_nil_r. rewrite num_tok_uint; auto.
+  - apply uint_chars_digits.
+  - apply delim_not_digit; auto.
+Qed.
+
+Lemma lex_num_start : forall u c r, u <> Nil ->
+  lex LIdle (uint_chars u ++ c :: r) = lex (LNum false []) (uint_chars u ++ c :: r).
+Proof.
+  intros u c r Hu. pose proof (uint_chars_digits u) as Hd.
+  destruct (uint_chars u) as [|d ds] eqn:E.
+  - exfalso. eapply uint_chars_nonnil; eauto.
+  - simpl in Hd. apply andb_true_iff in Hd. destruct Hd as [Hd _].
+    cbn [List.app]. rewrite lex_idle_digit; auto. cbn [lex]. rewrite Hd. reflexivity.
+Qed.
+
+Lemma to_int_nonnil : forall z, match Z.to_int z with Pos u => u <> Nil | Neg u => u <> Nil end.
+Proof.
+  destruct z; simpl.
+  - discriminate.
+  - apply Unsigned.to_uint_nonnil.
+  - apply Unsigned.to_uint_nonnil.
+Qed.
+
+Lemma lex_int : forall z c r, delim c = true ->
+  lex LIdle (ser_int z ++ c :: r) = pre [TInt z] (lex LIdle (c :: r)).
+Proof.
+  intros z c r Hc. unfold ser_int. pose proof (to_int_nonnil z) as Hn. pose proof (DecimalZ.of_to z) as Hz.
+  destruct (Z.to_int z) as [u|u].
+  - rewrite lex_num_start; auto. rewrite lex_uint; auto. rewrite Hz. reflexivity.
+  - cbn [List.app]. change (lex LIdle (45 :: uint_chars u ++ c :: r)) with (lex (LNum true []) (uint_chars u ++ c :: r)).
+    rewrite lex_uint; auto. rewrite Hz. reflexivity.
+Qed.
+
+(* values and objects *)
+Definition LexOK {A : Type} (pv : nat -> A -> str) (tv : A -> list token) (v : A) : Prop :=
+  forall i c r, delim c = true -> lex LIdle (pv i v ++ c :: r) = pre (tv v) (lex LIdle (c :: r)).
+
+Lemma lex_kval : forall v, kval_ok v = true -> LexOK ser_kval tok_kval v.
+Proof.
+  intros v H i c r Hc. destruct v as [s|[|]|z]; simpl in *.
+  - apply lex_quote; auto.
+  - reflexivity.
+  - reflexivity.
+  - apply lex_int; auto.
+Qed.
+
+Lemma lex_member : forall (A : Type) (pv : nat -> A -> str) tv (m : str * A) j c r,
+  str_ok (fst m) = true -> LexOK pv tv (snd m) -> delim c = true ->
+  lex LIdle (ser_member pv j m ++ c :: r) = pre (tok_member tv m) (lex LIdle (c :: r)).
+Proof.
+  intros A pv tv [k v] j c r Hk Hv Hc. unfold ser_member, tok_member. simpl fst in *. simpl snd in *.
+  rewrite <- !app_assoc. rewrite lex_quote; auto. cbn [List.app].
+  change (lex LIdle (58 :: 32 :: pv j v ++ c :: r)) with (pre [TColon] (lex LIdle (32 :: pv j v ++ c :: r))).
+  rewrite lex_ws by reflexivity. rewrite Hv; auto. rewrite !pre_pre. reflexivity.
+Qed.
+
+Lemma lex_members_tail : forall (A : Type) (pv : nat -> A -> str) tv (ms : list (str * A)) j i r,
+  (forall m, In m ms -> str_ok (fst m) = true /\ LexOK pv tv (snd m)) ->
+  lex LIdle (flat_map (fun m' => [44] ++ nl j ++ ser_member pv j m') ms ++ nl i ++ [125] ++ r) =
+  pre (flat_map (fun m' => TComma :: tok_member tv m') ms ++ [TRB]) (lex LIdle r).
+Proof.
+  induction ms as [|m ms IH]; intros j i r H.
+  - cbn [flat_map List.app]. rewrite lex_nl. reflexivity.
+  - cbn [flat_map]. rewrite <- !app_assoc.
+    remember (flat_map (fun m' => [44] ++ nl j ++ ser_member pv j m') ms ++ nl i ++ [125] ++ r) as T eqn:ET.
+    cbn [List.app].
+    change (lex LIdle (44 :: ?x)) with (pre [TComma] (lex LIdle x)).
+    rewrite lex_nl.
+    destruct (H m (or_introl eq_refl)) as [Hk Hv].
+    assert (exists c r', delim c = true /\ T = c :: r') as Hd.
+    { subst T. destruct ms; cbn [flat_map List.app nl]; eexists; eexists; split; try reflexivity; reflexivity. }
+    destruct Hd as (c & r' & Hc & E).
+    rewrite E. rewrite (lex_member A pv tv m j c r' Hk Hv Hc). rewrite <- E. subst T.
+    rewrite IH by (intros m' Hm; apply H; right; auto).
+    rewrite !pre_pre. reflexivity.
+Qed.
+
+Lemma lex_obj : forall (A : Type) (pv : nat -> A -> str) tv (ms : list (str * A)) i r,
+  (forall m, In m ms -> str_ok (fst m) = true /\ LexOK pv tv (snd m)) ->
+  lex LIdle (ser_obj pv i ms ++ r) = pre (tok_obj tv ms) (lex LIdle r).
+Proof.
+  intros A pv tv ms i r H. destruct ms as [|m ms].
+  - cbn [ser_obj tok_obj List.app].
+    change (lex LIdle (123 :: 125 :: r)) with (pre [TLB] (pre [TRB] (lex LIdle r))).
+    rewrite pre_pre. reflexivity.
+  - unfold ser_obj, tok_obj. rewrite <- !app_assoc.
+    remember (flat_map (fun m' => [44] ++ nl (S i) ++ ser_member pv (S i) m') ms ++ nl i ++ [125] ++ r) as T eqn:ET.
+    cbn [List.app].
+    change (lex LIdle (123 :: ?x)) with (pre [TLB] (lex LIdle x)).
+    rewrite lex_nl.
+    destruct (H m (or_introl eq_refl)) as [Hk Hv].
+    assert (exists c r', delim c = true /\ T = c :: r') as Hd.
+    { subst T. destruct ms; cbn [flat_map List.app nl]; eexists; eexists; split; try reflexivity; reflexivity. }
+    destruct Hd as (c & r' & Hc & E).
+    rewrite E. rewrite (lex_member A pv tv m (S i) c r' Hk Hv Hc). rewrite <- E. subst T.
+    rewrite (lex_members_tail A pv tv) by (intros m' Hm; apply H; right; auto).
+    rewrite !pre_pre. reflexivity.
+Qed.
+
+Lemma obj_ok_in : forall (A : Type) (f : A -> bool) ms m, obj_ok f ms = true -> In m ms ->
+  str_ok (fst m) = true /\ f (snd m) = true.
+Proof.
+  intros A f ms m H Hin. unfold obj_ok in H. rewrite forallb_forall in H.
+  apply H in Hin. apply andb_true_iff in Hin. auto.
+Qed.
+
+Lemma lex_obj_ok : forall (A : Type) (pv : nat -> A -> str) tv (f : A -> bool) (ms : list (str * A)),
+  (forall v, f v = true -> LexOK pv tv v) -> obj_ok f ms = true ->
+  forall i r, lex LIdle (ser_obj pv i ms ++ r) = pre (tok_obj tv ms) (lex LIdle r).
+Proof.
+  intros A pv tv f ms Hf H i r. apply lex_obj. intros m Hin.
+  destruct (obj_ok_in A f ms m H Hin). auto.
+Qed.
+
+Lemma lex_fval : forall v, fval_ok v = true -> LexOK ser_fval tok_fval v.
+Proof.
+  intros v H i c r Hc. destruct v as [z|d]; simpl in *.
+  - apply lex_int; auto.
+  - apply (lex_obj_ok _ ser_kval tok_kval kval_ok); auto. apply lex_kval.
+Qed.
+
+Lemma lex_pdict : forall d, pdict_ok d = true -> LexOK ser_pdict (tok_obj tok_fval) d.
+Proof. intros d H i c r Hc. apply (lex_obj_ok _ ser_fval tok_fval fval_ok); auto. apply lex_fval. Qed.
+
+Lemma lex_kmap : forall m, kmap_ok m = true -> LexOK ser_kmap (tok_obj (tok_obj tok_fval)) m.
+Proof. intros d H i c r Hc. apply (lex_obj_ok _ ser_pdict (tok_obj tok_fval) pdict_ok); auto. apply lex_pdict. Qed.
+
+Lemma lex_db : forall d, db_ok d = true -> lex LIdle (ser_db d) = Some (tok_db d).
+Proof.
+  intros d H. unfold ser_db. rewrite <- (app_nil_r (ser_obj ser_kmap 0 d)).
+  rewrite (lex_obj_ok _ ser_kmap (tok_obj (tok_obj tok_fval)) kmap_ok); auto.
+  - simpl. rewrite app_nil_r. reflexivity.
+  - apply lex_kmap.
+Qed.
+
+(* ================================================================== the parser on tokens *)
+Definition PvOK {A : Type} (pv : list token -> option (A * list token)) (tv : A -> list token) (v : A) : Prop :=
+  forall r, pv (tv v ++ r) = Some (v, r).
+
+Lemma p_members_ok : forall (A : Type) pv (tv : A -> list token) (ms : list (str * A)) m fuel r,
+  (forall m', In m' (m :: ms) -> PvOK pv tv (snd m')) ->
+  (List.length ms < fuel)%nat ->
+  p_members pv fuel (tok_member tv m ++ flat_map (fun m' => TComma :: tok_member tv m') ms ++ TRB :: r)
+  = Some (m :: ms, r).
+Proof.
+  induction ms as [|m2 ms IH]; intros [k v] fuel r H Hf.
+  - destruct fuel as [|f]; [inversion Hf|].
+    pose proof (H (k, v) (or_introl eq_refl)) as Hv. cbn [snd] in Hv. unfold PvOK in Hv.
+    assert (tok_member tv (k, v) ++ flat_map (fun m' => TComma :: tok_member tv m') [] ++ TRB :: r
+            = TStr k :: TColon :: (tv v ++ TRB :: r)) as E by reflexivity.
+    rewrite E. cbn [p_members]. rewrite Hv. reflexivity.
+  - destruct fuel as [|f]; [inversion Hf|].
+    pose proof (H (k, v) (or_introl eq_refl)) as Hv. cbn [snd] in Hv. unfold PvOK in Hv.
+    assert (tok_member tv (k, v) ++ flat_map (fun m' => TComma :: tok_member tv m') (m2 :: ms) ++ TRB :: r
+            = TStr k :: TColon :: (tv v ++ TComma ::
+                (tok_member tv m2 ++ flat_map (fun m' => TComma :: tok_member tv m') ms ++ TRB :: r))) as E.
+    { unfold tok_member at 1. cbn [flat_map fst snd List.app]. rewrite <- !app_assoc. reflexivity. }
+    rewrite E. cbn [p_members]. rewrite Hv. rewrite IH.
+    + reflexivity.
+    + intros m' Hm. apply H. right. auto.
+    + simpl in Hf. lia.
+Qed.
+
+Lemma flat_map_len : forall (A : Type) (tv : A -> list token) (ms : list (str * A)),
+  (List.length ms <= List.length (flat_map (fun m' => TComma :: tok_member tv m') ms))%nat.
+Proof.
+  induction ms as [|m ms IH]; [simpl; auto|]. cbn [flat_map List.length List.app]. rewrite app_length. lia.
+Qed.
+
+Lemma p_obj_ok : forall (A : Type) pv (tv : A -> list token) (ms : list (str * A)),
+  (forall m, In m ms -> PvOK pv tv (snd m)) -> PvOK (p_obj pv) (tok_obj tv) ms.
+Proof.
+  intros A pv tv ms H r. destruct ms as [|[k v] ms].
+  - reflexivity.
+  - unfold tok_obj. cbn [tok_member fst snd List.app p_obj].
+    rewrite <- !app_assoc. cbn [List.app].
+    change (TStr k :: TColon :: tv v ++ flat_map (fun m' => TComma :: tok_member tv m') ms ++ TRB :: r)
+      with (tok_member tv (k, v) ++ flat_map (fun m' => TComma :: tok_member tv m') ms ++ TRB :: r).
+    apply p_members_ok; auto.
+    pose proof (flat_map_len A tv ms) as Hl.
+    unfold tok_member at 1. cbn [List.app List.length]. rewrite !app_length. cbn [List.length]. lia.
+Qed.
+
+Lemma p_kval_ok : forall v, PvOK p_kval tok_kval v.
+Proof. intros v r. destruct v as [s|[|]|z]; reflexivity. Qed.
+
+Lemma p_fval_ok : forall v, PvOK p_fval tok_fval v.
+Proof.
+  intros v r. destruct v as [z|d]; [reflexivity|].
+  pose proof (p_obj_ok _ p_kval tok_kval d (fun m _ => p_kval_ok (snd m)) r) as E.
+  unfold tok_fval. unfold p_fval. destruct d as [|m d]; cbn [tok_obj List.app] in *; rewrite E; reflexivity.
+Qed.
+
+Lemma p_db_ok : forall d r, p_db (tok_db d ++ r) = Some (d, r).
+Proof.
+  intros d r. unfold p_db, tok_db. apply p_obj_ok. intros m _.
+  apply p_obj_ok. intros m' _. apply p_obj_ok. intros m'' _. apply p_fval_ok.
+Qed.
+
+Theorem parse_ser : forall d, db_ok d = true -> parse (ser_db d) = Some d.
+Proof.
+  intros d H. unfold parse. rewrite lex_db; auto.
+  rewrite <- (app_nil_r (tok_db d)). rewrite p_db_ok. reflexivity.
+Qed.
+
+(* ================================================================== well-formedness is kept by the operations *)
+Lemma obj_ok_ins : forall (A : Type) (f : A -> bool) k v l,
+  obj_ok f l = true -> str_ok k = true -> f v = true -> obj_ok f (ins k v l) = true.
+Proof.
+  induction l as [|[k' v'] r IH]; simpl; intros H Hk Hv.
+  - rewrite Hk, Hv. reflexivity.
+  - apply andb_true_iff in H. destruct H as [H1 H2]. simpl in H1.
+    destruct (str_eqb k k'); simpl.
+    + rewrite Hk, Hv, H2. reflexivity.
+    + destruct (str_ltb k k'); simpl.
+      * rewrite Hk, Hv, H1, H2. reflexivity.
+      * rewrite H1. simpl. apply IH; auto.
+Qed.
+
+Lemma obj_ok_del : forall (A : Type) (f : A -> bool) k l, obj_ok f l = true -> obj_ok f (del k l) = true.
+Proof.
+  induction l as [|[k' v'] r IH]; simpl; intro H; auto.
+  apply andb_true_iff in H. destruct H as [H1 H2].
+  destruct (str_eqb k k'); simpl; auto. rewrite H1. simpl. auto.
+Qed.
+
+Lemma obj_ok_merge : forall (A : Type) (f : A -> bool) new d,
+  obj_ok f d = true -> obj_ok f new = true -> obj_ok f (merge d new) = true.
+Proof.
+  induction new as [|[k v] r IH]; simpl; intros d Hd Hn; auto.
+  apply andb_true_iff in Hn. destruct Hn as [H1 H2]. simpl in H1. apply andb_true_iff in H1. destruct H1.
+  apply IH; auto. apply obj_ok_ins; auto.
+Qed.
+
+Lemma obj_ok_lookup : forall (A : Type) (f : A -> bool) k l v,
+  obj_ok f l = true -> lookup k l = Some v -> f v = true.
+Proof.
+  induction l as [|[k' v'] r IH]; simpl; intros v H L; try discriminate.
+  apply andb_true_iff in H. destruct H as [H1 H2]. simpl in H1. apply andb_true_iff in H1.
+  destruct (str_eqb k k').
+  - inversion L; subst. tauto.
+  - eapply IH; eauto.
+Qed.
+
+Lemma obj_ok_entries : forall (A : Type) (f : A -> bool) k (l : list (str * list (str * A))),
+  obj_ok (obj_ok f) l = true -> obj_ok f (entries k l) = true.
+Proof.
+  intros. unfold entries. destruct (lookup k l) eqn:E; auto.
+  eapply obj_ok_lookup in E; eauto.
+Qed.
+
+Lemma obj_ok_app : forall (A : Type) (f : A -> bool) a b, obj_ok f (a ++ b) = obj_ok f a && obj_ok f b.
+Proof. intros. unfold obj_ok. apply forallb_app. Qed.
+
+Lemma key_to_dict_ok : forall k, key_ok k = true -> obj_ok kval_ok (key_to_dict k) = true.
+Proof.
+  intros [v a e r] H. unfold key_ok in H. simpl in H. apply andb_true_iff in H. destruct H as [Hv Hr].
+  unfold key_to_dict. simpl. destruct e, r; simpl; simpl in Hr; rewrite ?hex_enc_ok; auto.
+Qed.
+
+Lemma optm_key_ok : forall F o, str_ok F = true -> okey_ok o = true ->
+  obj_ok fval_ok (optm F (fun x => FvKey (key_to_dict x)) o) = true.
+Proof.
+  intros F o HF H. destruct o as [x|]; [|reflexivity]. simpl in H.
+  pose proof (key_to_dict_ok x H) as Hx.
+  change (obj_ok fval_ok (optm F (fun x0 => FvKey (key_to_dict x0)) (Some x)))
+    with (str_ok F && obj_ok kval_ok (key_to_dict x) && true).
+  rewrite HF, Hx. reflexivity.
+Qed.
+
+Lemma optm_int_ok : forall F o, str_ok F = true -> obj_ok fval_ok (optm F FvInt o) = true.
+Proof. intros F o HF. destruct o; simpl; auto. rewrite HF. auto. Qed.
+
+Lemma to_dict_ok : forall k, keys_ok k = true -> pdict_ok (to_dict k) = true.
+Proof.
+  intros k H. unfold keys_ok in H. repeat (apply andb_true_iff in H; destruct H as [H ?]).
+  unfold pdict_ok, to_dict. rewrite !obj_ok_app.
+  rewrite !optm_int_ok by reflexivity. rewrite !optm_key_ok by (auto; reflexivity). reflexivity.
+Qed.
+
+Definition op_ok (o : op) : bool :=
+  match o with
+  | Update name k => str_ok name && keys_ok k
+  | Delete name => str_ok name
+  | Get name => str_ok name
+  | _ => true
+  end.
+
+Lemma resolve_ok : forall d h, db_ok d = true -> str_ok h = true -> str_ok (resolve d h) = true.
+Proof.
+  intros d h Hd Hh. unfold resolve. destruct (has h d); auto.
+  destruct (str_eqb h DEFAULT_NAMESPACE && Nat.eqb (List.length d) 1); auto.
+  destruct d as [|[ns m] r]; auto. simpl in Hd. apply andb_true_iff in Hd. destruct Hd as [H1 _].
+  simpl in H1. apply andb_true_iff in H1. tauto.
+Qed.
+
+Lemma a_load_ok : forall d h, db_ok d = true -> str_ok h = true ->
+  db_ok (fst (a_load d h)) = true /\ str_ok (snd (a_load d h)) = true.
+Proof.
+  intros d h Hd Hh. unfold a_load. pose proof (resolve_ok d h Hd Hh) as Hr.
+  destruct (has (resolve d h) d); simpl; split; auto.
+  apply obj_ok_ins; auto.
+Qed.
+
+Lemma a_apply_ok : forall d h o d' r, db_ok d = true -> str_ok h = true -> op_ok o = true ->
+  a_apply d h o = (Some d', r) -> db_ok d' = true.
+Proof.
+  intros d h o d' r Hd Hh Ho E. unfold a_apply in E.
+  destruct (a_load_ok d h Hd Hh) as [H1 H2].
+  destruct (a_load d h) as [d1 ns]. simpl in H1, H2.
+  assert (kmap_ok (entries ns d1) = true) as Hkm by (apply obj_ok_entries; auto).
+  destruct o; simpl in Ho.
+  - inversion E; subst. apply andb_true_iff in Ho. destruct Ho as [Hn Hk].
+    apply obj_ok_ins; auto. apply obj_ok_ins; auto.
+    apply obj_ok_merge. apply obj_ok_entries; auto. apply to_dict_ok; auto.
+  - destruct (has name (entries ns d1)); inversion E; subst.
+    apply obj_ok_ins; auto. apply obj_ok_del; auto.
+  - inversion E; subst. apply obj_ok_ins; auto.
+  - inversion E.
+  - inversion E.
+Qed.
+
+(* ================================================================== file-system steps of save *)
+Lemma exec_steps_app : forall a b f,
+  exec_steps f (a ++ b) = match exec_steps f a with Some f' => exec_steps f' b | None => None end.
+Proof.
+  induction a as [|s a IH]; intros; simpl; auto.
+  destruct (exec_step f s); auto.
+Qed.
+
+Lemma chunks_concat : forall lens b, concat (chunks lens b) = b.
+Proof.
+  induction lens as [|n ls IH]; intros; simpl.
+  - apply app_nil_r.
+  - rewrite IH. apply firstn_skipn.
+Qed.
+
+Lemma exec_writes : forall cs d m b,
+  exec_steps (mkFs d m (Some b)) (map (SWrite PTmp) cs) = Some (mkFs d m (Some (b ++ concat cs))).
+Proof.
+  induction cs as [|c cs IH]; intros; simpl.
+  - rewrite app_nil_r. reflexivity.
+  - rewrite IH. rewrite <- app_assoc. reflexivity.
+Qed.
+
+Definition saved (d : db) : fs := mkFs true (Some (ser_db d)) None.
+
+(* everything before the rename *)
+Definition save_pre (f : fs) (d : db) (lens : list nat) : list step :=
+  (if f_dir f then [] else [SMkdir]) ++ [SOpenTrunc PTmp]
+  ++ map (SWrite PTmp) (chunks lens (ser_db d)) ++ [SClose PTmp].
+
+Lemma save_steps_split : forall f d lens, save_steps f d lens = save_pre f d lens ++ [SRename PTmp PMain].
+Proof.
+  intros. unfold save_steps, save_pre. rewrite <- !app_assoc. simpl. reflexivity.
+Qed.
+
+Lemma save_pre_exec : forall f d lens,
+  exec_steps f (save_pre f d lens) = Some (mkFs true (f_main f) (Some (ser_db d))).
+Proof.
+  intros [dir m t] d lens. unfold save_pre. simpl f_dir.
+  assert (forall m t, exec_steps (mkFs true m t) ([SOpenTrunc PTmp] ++ map (SWrite PTmp) (chunks lens (ser_db d)) ++ [SClose PTmp])
+          = Some (mkFs true m (Some (ser_db d)))) as H.
+  { intros m0 t0. simpl. rewrite exec_steps_app. unfold fset. simpl.
+    rewrite exec_writes. simpl. rewrite chunks_concat. reflexivity. }
+  destruct dir; simpl List.app.
+  - apply H.
+  - change (exec_steps (mkFs false m t) (SMkdir :: ?l)) with (exec_steps (mkFs true m t) l). apply H.
+Qed.
+
+Theorem save_exec : forall f d lens, exec_steps f (save_steps f d lens) = Some (saved d).
+Proof.
+  intros. rewrite save_steps_split, exec_steps_app, save_pre_exec. reflexivity.
+Qed.
+
+(* steps that cannot touch the key file *)
+Definition tmp_only (s : step) : bool :=
+  match s with
+  | SMkdir | SOpenTrunc PTmp | SWrite PTmp _ | SClose PTmp => true
+  | _ => false
+  end.
+
+Lemma tmp_only_step : forall s f f', tmp_only s = true -> exec_step f s = Some f' -> f_main f' = f_main f.
+Proof.
+  intros s f f' H E. destruct s as [|[|]|[|] c|[|]|a b]; simpl in H; try discriminate; simpl in E.
+  - inversion E; reflexivity.
+  - destruct (f_dir f); inversion E; reflexivity.
+  - destruct (f_tmp f); inversion E; reflexivity.
+  - destruct (f_tmp f); inversion E; reflexivity.
+Qed.
+
+Lemma crash_tmp_only : forall l f f1 k cut,
+  forallb tmp_only l = true -> exec_steps f l = Some f1 ->
+  exists f', crash_exec k cut l f = Some f' /\ f_main f' = f_main f.
+Proof.
+  induction l as [|s l IH]; intros f f1 k cut H E.
+  - exists f. destruct k; auto.
+  - simpl in H. apply andb_true_iff in H. destruct H as [Hs Hl].
+    simpl in E. destruct (exec_step f s) as [f2|] eqn:E2; try discriminate.
+    destruct k as [|k]; simpl.
+    + destruct s as [|p|p c|p|a b]; try (exists f; auto; fail).
+      destruct p; simpl in Hs; try discriminate. simpl in E2. simpl.
+      destruct (f_tmp f) as [b|]; try discriminate. eexists. split; reflexivity.
+    + rewrite E2. destruct (IH f2 f1 k cut Hl E) as (f' & C & M). exists f'. split; auto.
+      rewrite M. eapply tmp_only_step; eauto.
+Qed.
+
+Lemma crash_exec_app : forall a b k cut f,
+  crash_exec k cut (a ++ b) f =
+  if (k <? List.length a)%nat then crash_exec k cut a f
+  else match exec_steps f a with Some f' => crash_exec (k - List.length a) cut b f' | None => None end.
+Proof.
+  induction a as [|s a IH]; intros b k cut f.
+  - simpl. rewrite Nat.sub_0_r. reflexivity.
+  - destruct k as [|k].
+    + reflexivity.
+    + cbn [List.app crash_exec List.length exec_steps]. destruct (exec_step f s) as [f2|].
+      * rewrite IH. reflexivity.
+      * destruct (S k <? S (List.length a))%nat; reflexivity.
+Qed.
+
+Lemma crash_exec_all : forall l k cut f, (List.length l <= k)%nat -> crash_exec k cut l f = exec_steps f l.
+Proof.
+  induction l as [|s l IH]; intros k cut f H.
+  { destruct k; reflexivity. }
+  destruct k as [|k]; [simpl in H; lia|]. simpl.
+  destruct (exec_step f s); auto. apply IH. simpl in H. lia.
+Qed.
+
+Lemma save_pre_tmp_only : forall f d lens, forallb tmp_only (save_pre f d lens) = true.
+Proof.
+  intros. unfold save_pre. rewrite !forallb_app. destruct (f_dir f); simpl.
+  - rewrite andb_true_r. induction (chunks lens (ser_db d)); simpl; auto.
+  - rewrite andb_true_r. induction (chunks lens (ser_db d)); simpl; auto.
+Qed.
+
+(* the heart of crash atomicity: wherever save is interrupted, the key file is untouched
+   until the rename, and complete after it *)
+Theorem save_crash : forall f d lens k cut,
+  exists f', crash_exec k cut (save_steps f d lens) f = Some f' /\
+    ((k < List.length (save_steps f d lens))%nat -> f_main f' = f_main f) /\
+    ((List.length (save_steps f d lens) <= k)%nat -> f' = saved d).
+Proof.
+  intros f d lens k cut.
+  destruct (Nat.le_gt_cases (List.length (save_steps f d lens)) k) as [Hk|Hk].
+  - exists (saved d). rewrite crash_exec_all by auto. rewrite save_exec. repeat split; auto. lia.
+  - rewrite save_steps_split in *. rewrite app_length in Hk. simpl in Hk.
+    rewrite crash_exec_app.
+    destruct (k <? List.length (save_pre f d lens))%nat eqn:L.
+    + destruct (crash_tmp_only _ f _ k cut (save_pre_tmp_only f d lens) (save_pre_exec f d lens)) as (f' & C & M).
+      exists f'. repeat split; auto. rewrite app_length. simpl. lia.
+    + rewrite save_pre_exec.
+      assert (k - List.length (save_pre f d lens) = 0)%nat as Z by lia. rewrite Z. simpl.
+      eexists. split; [reflexivity|]. split; auto. rewrite app_length. simpl. lia.
+Qed.
+
+(* ================================================================== refinement: the files behave like the database *)
+(* the key file holds (a text that reads as) the well-formed database d; the ".tmp" file and
+   the directory flag are unconstrained: leftovers of an interrupted save are harmless *)
+Definition rel (f : fs) (d : db) : Prop := db_ok d = true /\ read_db f = Some d.
+
+Lemma rel_saved : forall d, db_ok d = true -> rel (saved d) d.
+Proof. intros d H. split; auto. unfold read_db, saved. simpl. apply parse_ser; auto. Qed.
+
+Lemma rel_init : forall dir tmp, rel (mkFs dir None tmp) [].
+Proof. intros. split; reflexivity. Qed.
+
+Lemma rel_same_main : forall f f' d, rel f d -> f_main f' = f_main f -> rel f' d.
+Proof. intros f f' d [H1 H2] E. split; auto. unfold read_db in *. rewrite E. auto. Qed.
+
+Definition item_ok (it : item) : bool :=
+  match it with
+  | Do h o _ => str_ok h && op_ok o
+  | Crash h o _ _ _ => str_ok h && op_ok o
+  end.
+
+Lemma c_item_do : forall f d h o lens, rel f d -> str_ok h = true -> op_ok o = true ->
+  let '(f', x) := c_item f (Do h o lens) in
+  let '(d', x') := a_step d h o in
+  x = x' /\ rel f' d'.
+Proof.
+  intros f d h o lens [Hd Hr] Hh Ho. unfold c_item, a_step. rewrite Hr.
+  destruct (a_apply d h o) as [[d'|] r] eqn:E.
+  - rewrite save_exec. split; auto. apply rel_saved. eapply a_apply_ok; eauto.
+  - split; auto. split; auto.
+Qed.
+
+(* an interrupted operation leaves the old database or the new one *)
+Lemma c_item_crash : forall f d h o lens k cut, rel f d -> str_ok h = true -> op_ok o = true ->
+  let '(f', x) := c_item f (Crash h o lens k cut) in
+  (rel f' d /\ x = match fst (a_apply d h o) with Some _ => OCrashed | None => snd (a_apply d h o) end)
+  \/ (rel f' (fst (a_step d h o)) /\ x = snd (a_step d h o)).
+Proof.
+  intros f d h o lens k cut [Hd Hr] Hh Ho. unfold c_item, a_step. rewrite Hr.
+  destruct (a_apply d h o) as [[d'|] r] eqn:E; simpl fst; simpl snd.
+  - destruct (save_crash f d' lens k cut) as (f' & C & Hold & Hnew).
+    destruct (k <? List.length (save_steps f d' lens))%nat eqn:L.
+    + rewrite C. left. split; auto. apply rel_same_main with f. split; auto. apply Hold. lia.
+    + rewrite save_exec. right. split; auto. apply rel_saved. eapply a_apply_ok; eauto.
+  - left. split; auto. split; auto.
+Qed.
+
+Theorem store_refines_map : forall items f d,
+  rel f d -> forallb item_ok items = true ->
+  exists commits,
+    let '(f', outs) := c_run f items in
+    let '(d', outs') := a_run d items commits in
+    outs = outs' /\ rel f' d'.
+Proof.
+  induction items as [|it items IH]; intros f d R Hok.
+  - exists []. simpl. auto.
+  - simpl in Hok. apply andb_true_iff in Hok. destruct Hok as [Hit Hrest].
+    destruct it as [h o lens|h o lens k cut]; simpl in Hit; apply andb_true_iff in Hit; destruct Hit as [Hh Ho].
+    + pose proof (c_item_do f d h o lens R Hh Ho) as S1.
+      cbn [c_run a_run]. destruct (c_item f (Do h o lens)) as [f1 x].
+      destruct (a_step d h o) as [d1 x1]. destruct S1 as [Ex R1].
+      destruct (IH f1 d1 R1 Hrest) as [cs S2]. exists cs.
+      destruct (c_run f1 items) as [f2 os]. destruct (a_run d1 items cs) as [d2 os'].
+      destruct S2 as [Eo R2]. subst. auto.
+    + pose proof (c_item_crash f d h o lens k cut R Hh Ho) as S1.
+      cbn [c_run]. destruct (c_item f (Crash h o lens k cut)) as [f1 x].
+      destruct S1 as [[R1 Ex]|[R1 Ex]].
+      * destruct (IH f1 d R1 Hrest) as [cs S2]. exists (false :: cs). cbn [a_run].
+        destruct (c_run f1 items) as [f2 os]. destruct (a_run d items cs) as [d2 os'].
+        destruct S2 as [Eo R2]. subst. auto.
+      * destruct (IH f1 _ R1 Hrest) as [cs S2]. exists (true :: cs). cbn [a_run].
+        destruct (a_step d h o) as [d1 x1]. simpl fst in *. simpl snd in *.
+        destruct (c_run f1 items) as [f2 os]. destruct (a_run d1 items cs) as [d2 os'].
+        destruct S2 as [Eo R2]. subst. auto.
+Qed.
+
+(* without crashes: every history of operations through any handles on one file returns
+   exactly what the database operations return, and the file always reads back *)
+Fixpoint no_crash (l : list item) : bool :=
+  match l with [] => true | Do _ _ _ :: r => no_crash r | Crash _ _ _ _ _ :: _ => false end.
+
+Lemma a_run_no_crash : forall items d cs, no_crash items = true -> a_run d items cs = a_run d items [].
+Proof.
+  induction items as [|[h o lens|h o lens k cut] items IH]; intros d cs H; simpl in *; auto; try discriminate.
+  destruct (a_step d h o) as [d1 x]. rewrite (IH d1 cs H). reflexivity.
+Qed.
+
+Theorem store_refines_map_no_crash : forall items f d,
+  rel f d -> forallb item_ok items = true -> no_crash items = true ->
+  let '(f', outs) := c_run f items in
+  let '(d', outs') := a_run d items [] in
+  outs = outs' /\ rel f' d'.
+Proof.
+  intros items f d R Hok Hn. destruct (store_refines_map items f d R Hok) as [cs S].
+  rewrite (a_run_no_crash items d cs Hn) in S. exact S.
+Qed.
+
+(* crash atomicity of one operation: for every mutating operation, every crash point k of
+   its step list and every cut of a write, the file afterwards reads as the complete previous
+   database or the complete new one *)
+Theorem crash_atomic : forall f d h o lens k cut,
+  rel f d -> str_ok h = true -> op_ok o = true ->
+  exists f', crash_exec k cut (op_steps f h o lens) f = Some f' /\
+    (f_main f' = f_main f \/ f_main f' = Some (ser_db (fst (a_step d h o)))) /\
+    (read_db f' = Some d \/ read_db f' = Some (fst (a_step d h o))) /\
+    ((k < List.length (op_steps f h o lens))%nat -> read_db f' = Some d) /\
+    ((List.length (op_steps f h o lens) <= k)%nat -> read_db f' = Some (fst (a_step d h o))).
+Proof.
+  intros f d h o lens k cut [Hd Hr] Hh Ho. unfold op_steps, a_step. rewrite Hr.
+  destruct (a_apply d h o) as [[d'|] r] eqn:E; simpl fst.
+  - destruct (save_crash f d' lens k cut) as (f' & C & Hold & Hnew).
+    assert (db_ok d' = true) as Hd' by (eapply a_apply_ok; eauto).
+    exists f'. split; auto.
+    destruct (Nat.le_gt_cases (List.length (save_steps f d' lens)) k) as [Hk|Hk].
+    + rewrite (Hnew Hk). unfold read_db, saved. simpl. rewrite parse_ser by auto.
+      repeat split; auto. intro. lia.
+    + assert (read_db f' = Some d) as Hrd by (unfold read_db in *; rewrite (Hold Hk); auto).
+      repeat split; auto. intro. lia.
+  - exists f. split. { destruct k; reflexivity. } repeat split; auto.
+Qed.
+
+(* ================================================================== the database as a map: isolation and the map laws *)
+Lemma a_load_lookup : forall d h ns, str_eqb ns (resolve d h) = false ->
+  lookup ns (fst (a_load d h)) = lookup ns d.
+Proof.
+  intros d h ns H. unfold a_load. destruct (has (resolve d h) d); simpl; auto.
+  apply lookup_ins_other; auto.
+Qed.
+
+Lemma a_load_snd : forall d h, snd (a_load d h) = resolve d h.
+Proof. intros. unfold a_load. destruct (has (resolve d h) d); reflexivity. Qed.
+
+Lemma entries_ins_same : forall (A : Type) k (v : list A) l, entries k (ins k v l) = v.
+Proof. intros. unfold entries. rewrite lookup_ins_same. reflexivity. Qed.
+
+Lemma has_false_entries : forall (A : Type) k (l : list (str * list A)), has k l = false -> entries k l = [].
+Proof. intros A k l. unfold has, entries. destruct (lookup k l); [discriminate|reflexivity]. Qed.
+
+Lemma has_lookup_eq : forall (A : Type) k (l l' : list (str * A)), lookup k l = lookup k l' -> has k l = has k l'.
+Proof. intros A k l l' E. unfold has. rewrite E. reflexivity. Qed.
+
+Lemma entries_lookup_eq : forall (A : Type) k (l l' : list (str * list A)),
+  lookup k l = lookup k l' -> entries k l = entries k l'.
+Proof. intros A k l l' E. unfold entries. rewrite E. reflexivity. Qed.
+
+Lemma a_load_entries : forall d h, entries (resolve d h) (fst (a_load d h)) = entries (resolve d h) d.
+Proof.
+  intros. unfold a_load. destruct (has (resolve d h) d) eqn:E; simpl.
+  - reflexivity.
+  - rewrite entries_ins_same. symmetry. apply has_false_entries. exact E.
+Qed.
+
+(* the new key map of the namespace a handle works on, for the operations that save *)
+Definition new_kmap (m : kmap) (o : op) : kmap :=
+  match o with
+  | Update name k => ins name (merge (entries name m) (to_dict k)) m
+  | Delete name => del name m
+  | DeleteAll => []
+  | _ => m
+  end.
+
+(* a_apply in terms of what the handle sees *)
+Lemma a_apply_eq : forall d h o,
+  a_apply d h o =
+  let R := resolve d h in let V := view d h in let D1 := fst (a_load d h) in
+  match o with
+  | Update name k => (Some (ins R (new_kmap V o) D1), ODone)
+  | Delete name => if has name V then (Some (ins R (del name V) D1), ODone) else (None, OKeyError)
+  | DeleteAll => (Some (ins R [] D1), ODone)
+  | Get name => (None, match lookup name V with
+                       | None => OGet None
+                       | Some pd => match from_dict pd with Some k => OGet (Some k) | None => OBadKeys end
+                       end)
+  | GetAll => (None, match all_from_dict V with Some l => OAll l | None => OBadKeys end)
+  end.
+Proof.
+  intros d h o. unfold a_apply, view. rewrite <- (a_load_entries d h). pose proof (a_load_snd d h) as Hs.
+  destruct (a_load d h) as [d1 ns]. simpl in *. subst ns. destruct o; reflexivity.
+Qed.
+
+Lemma a_apply_shape : forall d h o d' r, a_apply d h o = (Some d', r) ->
+  d' = ins (resolve d h) (new_kmap (view d h) o) (fst (a_load d h)) /\ r = ODone.
+Proof.
+  intros d h o d' r E. rewrite a_apply_eq in E. destruct o; simpl in E.
+  - inversion E; auto.
+  - destruct (has name (view d h)); inversion E; auto.
+  - inversion E; auto.
+  - inversion E.
+  - inversion E.
+Qed.
+
+(* Namespaces are isolated: an operation through handle h changes nothing but the entry of
+   the namespace h resolves to. *)
+Theorem namespaces_isolated : forall d h o ns,
+  str_eqb ns (resolve d h) = false -> lookup ns (fst (a_step d h o)) = lookup ns d.
+Proof.
+  intros d h o ns H. unfold a_step. destruct (a_apply d h o) as [[d'|] r] eqn:E; simpl; auto.
+  apply a_apply_shape in E. destruct E as [E _]. subst d'.
+  rewrite lookup_ins_other; auto. apply a_load_lookup; auto.
+Qed.
+
+(* ... hence what any other named handle (or a default handle whose namespace exists) sees
+   is unchanged *)
+Lemma resolve_named : forall d h, str_eqb h DEFAULT_NAMESPACE = false -> resolve d h = h.
+Proof. intros d h H. unfold resolve. rewrite H. simpl. destruct (has h d); reflexivity. Qed.
+
+Lemma resolve_present : forall d h, has h d = true -> resolve d h = h.
+Proof. intros d h H. unfold resolve. rewrite H. reflexivity. Qed.
+
+Theorem other_handles_unchanged : forall d h o h2,
+  str_eqb h2 (resolve d h) = false ->
+  (str_eqb h2 DEFAULT_NAMESPACE = false \/ has h2 d = true) ->
+  view (fst (a_step d h o)) h2 = view d h2.
+Proof.
+  intros d h o h2 Hne Hh2.
+  pose proof (namespaces_isolated d h o h2 Hne) as L.
+  assert (resolve d h2 = h2 /\ resolve (fst (a_step d h o)) h2 = h2) as [R1 R2].
+  { destruct Hh2 as [Hn|Hp].
+    - split; apply resolve_named; auto.
+    - split; apply resolve_present; auto. rewrite (has_lookup_eq _ _ _ _ L). auto. }
+  unfold view. rewrite R1, R2. apply entries_lookup_eq. exact L.
+Qed.
+
+(* the handle that performed the operation keeps resolving to the same namespace *)
+Lemma resolve_after : forall d h o d' r, a_apply d h o = (Some d', r) -> resolve d' h = resolve d h.
+Proof.
+  intros d h o d' r E. apply a_apply_shape in E. destruct E as [E _]. subst d'.
+  unfold resolve at 2 3. unfold a_load. unfold resolve at 2 3 4 5.
+  destruct (has h d) eqn:Hh.
+  - rewrite Hh. simpl. apply resolve_present. apply has_ins_same.
+  - destruct (str_eqb h DEFAULT_NAMESPACE && Nat.eqb (List.length d) 1) eqn:C.
+    + destruct d as [|[ns m] [|x y]]; simpl in C; try (rewrite andb_false_r in C; discriminate).
+      unfold has in Hh. simpl in Hh. destruct (str_eqb h ns) eqn:Ens; try discriminate.
+      unfold has. simpl. rewrite !str_eqb_refl. simpl. rewrite str_eqb_refl.
+      unfold resolve. unfold has. simpl. rewrite Ens. apply andb_true_iff in C. destruct C as [C _].
+      rewrite C. reflexivity.
+    + destruct (has h d) eqn:Hh2; try discriminate.
+      simpl. apply resolve_present. apply has_ins_same.
+Qed.
+
+(* The view of the handle evolves as a map: update inserts the merged entry, delete removes
+   it, delete_all empties it, reads change nothing. *)
+Theorem view_after : forall d h o,
+  view (fst (a_step d h o)) h =
+  match o with
+  | Delete name => if has name (view d h) then del name (view d h) else view d h
+  | _ => new_kmap (view d h) o
+  end.
+Proof.
+  intros d h o. unfold a_step. destruct (a_apply d h o) as [[d'|] r] eqn:E; simpl fst.
+  - pose proof (resolve_after d h o d' r E) as R. pose proof E as E0.
+    apply a_apply_shape in E. destruct E as [E _].
+    unfold view at 1. rewrite R. subst d'. unfold entries at 1. rewrite lookup_ins_same.
+    destruct o; try reflexivity.
+    rewrite a_apply_eq in E0. simpl in E0. destruct (has name (view d h)); try discriminate. reflexivity.
+  - rewrite a_apply_eq in E. destruct o; simpl in E; try discriminate; try reflexivity.
+    destruct (has name (view d h)); try discriminate. reflexivity.
+Qed.
+
+(* what the reads return is a function of the view alone *)
+Theorem reads_from_view : forall d h,
+  (forall name, snd (a_step d h (Get name)) =
+     match lookup name (view d h) with
+     | None => OGet None
+     | Some pd => match from_dict pd with Some k => OGet (Some k) | None => OBadKeys end
+     end) /\
+  snd (a_step d h GetAll) = match all_from_dict (view d h) with Some l => OAll l | None => OBadKeys end.
+Proof. intros d h. unfold a_step. split; [intro name|]; rewrite a_apply_eq; reflexivity. Qed.
+
+(* delete of a name that is not stored: KeyError and no change *)
+Theorem delete_missing : forall d h name, has name (view d h) = false ->
+  a_step d h (Delete name) = (d, OKeyError).
+Proof. intros d h name H. unfold a_step. rewrite a_apply_eq. simpl. rewrite H. reflexivity. Qed.
+
+(* ================================================================== update merges field by field *)
+Definition over {A : Type} (new old : option A) : option A :=
+  match new with Some x => Some x | None => old end.
+
+(* the PairingKeys an update leaves: the fields present in the new value replace the stored
+   ones, the others are kept *)
+Definition overlay (old new : pkeys) : pkeys :=
+  mkKeys (over (address_type new) (address_type old))
+         (over (ltk new) (ltk old)) (over (ltk_central new) (ltk_central old))
+         (over (ltk_peripheral new) (ltk_peripheral old)) (over (irk new) (irk old))
+         (over (csrk new) (csrk old)) (over (link_key new) (link_key old))
+         (over (link_key_type new) (link_key_type old)).
+
+Lemma merge_to_dict : forall pd k,
+  merge pd (to_dict k) =
+  oins F_ltk_peripheral fkey (ltk_peripheral k) (oins F_ltk_central fkey (ltk_central k)
+  (oins F_ltk fkey (ltk k) (oins F_link_key_type FvInt (link_key_type k)
+  (oins F_link_key fkey (link_key k) (oins F_irk fkey (irk k) (oins F_csrk fkey (csrk k)
+  (oins F_address_type FvInt (address_type k) pd))))))).
+Proof. intros. unfold to_dict. rewrite !merge_app, !merge_optm. reflexivity. Qed.
+
+Ltac eqb_compute :=
+  repeat match goal with |- context [str_eqb ?x ?y] =>
+    let b := eval vm_compute in (str_eqb x y) in change (str_eqb x y) with b; cbv iota end.
+
+Lemma merge_to_dict_lookup : forall pd k,
+  let M := merge pd (to_dict k) in
+  lookup F_address_type M = over (option_map FvInt (address_type k)) (lookup F_address_type pd) /\
+  lookup F_csrk M = over (option_map fkey (csrk k)) (lookup F_csrk pd) /\
+  lookup F_irk M = over (option_map fkey (irk k)) (lookup F_irk pd) /\
+  lookup F_link_key M = over (option_map fkey (link_key k)) (lookup F_link_key pd) /\
+  lookup F_link_key_type M = over (option_map FvInt (link_key_type k)) (lookup F_link_key_type pd) /\
+  lookup F_ltk M = over (option_map fkey (ltk k)) (lookup F_ltk pd) /\
+  lookup F_ltk_central M = over (option_map fkey (ltk_central k)) (lookup F_ltk_central pd) /\
+  lookup F_ltk_peripheral M = over (option_map fkey (ltk_peripheral k)) (lookup F_ltk_peripheral pd).
+Proof.
+  intros pd k M. subst M. rewrite merge_to_dict.
+  repeat split; rewrite !lookup_oins; eqb_compute;
+    match goal with |- context [match ?o with Some _ => _ | None => _ end] => destruct o end; reflexivity.
+Qed.
+
+Lemma get_fint_over : forall F M pd o old,
+  lookup F M = over (option_map FvInt o) (lookup F pd) -> get_fint F pd = Some old ->
+  get_fint F M = Some (over o old).
+Proof.
+  intros F M pd o old L G. unfold get_fint in *. rewrite L. destruct o; simpl; auto.
+Qed.
+
+Lemma get_fkey_over : forall F M pd o old, okey_ok o = true ->
+  lookup F M = over (option_map fkey o) (lookup F pd) -> get_fkey F pd = Some old ->
+  get_fkey F M = Some (over o old).
+Proof.
+  intros F M pd o old Hok L G. unfold get_fkey in *. rewrite L. destruct o as [x|]; simpl; auto.
+  simpl in Hok. rewrite key_rt; auto.
+Qed.
+
+Lemma from_dict_inv : forall pd old, from_dict pd = Some old ->
+  get_fint F_address_type pd = Some (address_type old) /\ get_fkey F_ltk pd = Some (ltk old) /\
+  get_fkey F_ltk_central pd = Some (ltk_central old) /\ get_fkey F_ltk_peripheral pd = Some (ltk_peripheral old) /\
+  get_fkey F_irk pd = Some (irk old) /\ get_fkey F_csrk pd = Some (csrk old) /\
+  get_fkey F_link_key pd = Some (link_key old) /\ get_fint F_link_key_type pd = Some (link_key_type old).
+Proof.
+  intros pd old H. unfold from_dict in H.
+  destruct (get_fint F_address_type pd), (get_fkey F_ltk pd), (get_fkey F_ltk_central pd),
+    (get_fkey F_ltk_peripheral pd), (get_fkey F_irk pd), (get_fkey F_csrk pd), (get_fkey F_link_key pd),
+    (get_fint F_link_key_type pd); try discriminate.
+  inversion H; subst. simpl. repeat split; reflexivity.
+Qed.
+
+Theorem update_overlay : forall pd old k,
+  from_dict pd = Some old -> keys_ok k = true ->
+  from_dict (merge pd (to_dict k)) = Some (overlay old k).
+Proof.
+  intros pd old k Hold Hk. unfold keys_ok in Hk. repeat (apply andb_true_iff in Hk; destruct Hk as [Hk ?]).
+  destruct (from_dict_inv pd old Hold) as (G1 & G2 & G3 & G4 & G5 & G6 & G7 & G8).
+  destruct (merge_to_dict_lookup pd k) as (L1 & L2 & L3 & L4 & L5 & L6 & L7 & L8).
+  unfold from_dict.
+  rewrite (get_fint_over _ _ _ _ _ L1 G1), (get_fint_over _ _ _ _ _ L5 G8).
+  rewrite (get_fkey_over _ _ _ (ltk k) _ Hk L6 G2), (get_fkey_over _ _ _ (ltk_central k) _ H3 L7 G3),
+          (get_fkey_over _ _ _ (ltk_peripheral k) _ H2 L8 G4), (get_fkey_over _ _ _ (irk k) _ H1 L3 G5),
+          (get_fkey_over _ _ _ (csrk k) _ H0 L2 G6), (get_fkey_over _ _ _ (link_key k) _ H L4 G7).
+  reflexivity.
+Qed.
+
+(* a new peer: the stored keys are exactly the keys given *)
+Lemma from_dict_nil : from_dict [] = Some (mkKeys None None None None None None None None).
+Proof. reflexivity. Qed.
+
+Corollary update_new_peer : forall k, keys_ok k = true -> from_dict (merge [] (to_dict k)) = Some k.
+Proof.
+  intros k H. rewrite (update_overlay [] _ k from_dict_nil H). destruct k as [a k1 k2 k3 k4 k5 k6 t].
+  unfold overlay, over; simpl. destruct a, k1, k2, k3, k4, k5, k6, t; reflexivity.
+Qed.
+
+(* ================================================================== key order is kept (sort_keys) *)
+Definition fval_sorted (v : fval) : bool := match v with FvKey d => sorted d | FvInt _ => true end.
+Definition all_snd {A : Type} (f : A -> bool) (l : list (str * A)) : bool := forallb (fun m => f (snd m)) l.
+Definition pdict_sorted (d : pdict) : bool := sorted d && all_snd fval_sorted d.
+Definition kmap_sorted (m : kmap) : bool := sorted m && all_snd pdict_sorted m.
+Definition db_sorted (d : db) : bool := sorted d && all_snd kmap_sorted d.
+
+Lemma all_snd_ins : forall (A : Type) (f : A -> bool) k v l, all_snd f l = true -> f v = true -> all_snd f (ins k v l) = true.
+Proof.
+  induction l as [|[k' v'] r IH]; simpl; intros H Hv.
+  - rewrite Hv. reflexivity.
+  - apply andb_true_iff in H. destruct H as [H1 H2]. simpl in H1.
+    destruct (str_eqb k k'); simpl.
+    + rewrite Hv, H2. reflexivity.
+    + destruct (str_ltb k k'); simpl.
+      * rewrite Hv, H1, H2. reflexivity.
+      * rewrite H1. simpl. apply IH; auto.
+Qed.
+
+Lemma all_snd_del : forall (A : Type) (f : A -> bool) k l, all_snd f l = true -> all_snd f (del k l) = true.
+Proof.
+  induction l as [|[k' v'] r IH]; simpl; intro H; auto.
+  apply andb_true_iff in H. destruct H as [H1 H2].
+  destruct (str_eqb k k'); simpl; auto. rewrite H1. simpl. auto.
+Qed.
+
+Lemma all_snd_merge : forall (A : Type) (f : A -> bool) new d,
+  all_snd f d = true -> all_snd f new = true -> all_snd f (merge d new) = true.
+Proof.
+  induction new as [|[k v] r IH]; simpl; intros d Hd Hn; auto.
+  apply andb_true_iff in Hn. destruct Hn as [H1 H2]. simpl in H1.
+  apply IH; auto. apply all_snd_ins; auto.
+Qed.
+
+Lemma all_snd_lookup : forall (A : Type) (f : A -> bool) k l v, all_snd f l = true -> lookup k l = Some v -> f v = true.
+Proof.
+  induction l as [|[k' v'] r IH]; simpl; intros v H L; try discriminate.
+  apply andb_true_iff in H. destruct H as [H1 H2]. simpl in H1.
+  destruct (str_eqb k k').
+  - inversion L; subst. auto.
+  - eapply IH; eauto.
+Qed.
+
+Lemma key_to_dict_sorted : forall k, sorted (key_to_dict k) = true.
+Proof. intros [v a [e|] [r|]]; reflexivity. Qed.
+
+Lemma to_dict_sorted : forall k, pdict_sorted (to_dict k) = true.
+Proof.
+  intros [a k1 k2 k3 k4 k5 k6 t]. unfold pdict_sorted, to_dict, all_snd.
+  cbn [address_type ltk ltk_central ltk_peripheral irk csrk link_key link_key_type].
+  destruct a, k1, k2, k3, k4, k5, k6, t; cbn -[key_to_dict]; rewrite ?key_to_dict_sorted; reflexivity.
+Qed.
+
+Lemma entries_sorted : forall (A : Type) (f : list (str * A) -> bool) k (l : list (str * list (str * A))),
+  f [] = true -> all_snd f l = true -> f (entries k l) = true.
+Proof.
+  intros A f k l H0 H. unfold entries. destruct (lookup k l) eqn:E; auto.
+  eapply all_snd_lookup; eauto.
+Qed.
+
+Theorem a_step_sorted : forall d h o, db_sorted d = true -> db_sorted (fst (a_step d h o)) = true.
+Proof.
+  intros d h o H. unfold a_step. destruct (a_apply d h o) as [[d'|] r] eqn:E; simpl; auto.
+  apply a_apply_shape in E. destruct E as [E _]. subst d'.
+  unfold db_sorted in H. apply andb_true_iff in H. destruct H as [Hs Ha].
+  assert (db_sorted (fst (a_load d h)) = true) as H1.
+  { unfold a_load. destruct (has (resolve d h) d); simpl; unfold db_sorted.
+    - rewrite Hs, Ha. reflexivity.
+    - rewrite sorted_ins, all_snd_ins; auto. }
+  unfold db_sorted in H1. apply andb_true_iff in H1. destruct H1 as [Hs1 Ha1].
+  assert (kmap_sorted (view d h) = true) as Hv by (unfold view; apply entries_sorted; auto).
+  unfold kmap_sorted in Hv. apply andb_true_iff in Hv. destruct Hv as [Hvs Hva].
+  unfold db_sorted. rewrite sorted_ins, all_snd_ins; auto.
+  destruct o; simpl; unfold kmap_sorted.
+  - rewrite sorted_ins, all_snd_ins; auto.
+    pose proof (to_dict_sorted k) as Ht. unfold pdict_sorted in Ht. apply andb_true_iff in Ht. destruct Ht as [Ht1 Ht2].
+    assert (pdict_sorted (entries name (view d h)) = true) as He by (apply entries_sorted; auto).
+    unfold pdict_sorted in He. apply andb_true_iff in He. destruct He as [He1 He2].
+    unfold pdict_sorted. rewrite sorted_merge, all_snd_merge; auto.
+  - rewrite sorted_del, all_snd_del; auto.
+  - reflexivity.
+  - rewrite Hvs, Hva. reflexivity.
+  - rewrite Hvs, Hva. reflexivity.
 Qed.
